@@ -14,7 +14,8 @@
 (***************************************************************************)
 EXTENDS EFCorpus, Json
 
-CONSTANT Tier
+CONSTANT Tier,
+         Seed      \* >= 1: shifts which part of a sampled family is taken (1 = the default sample)
 
 VARIABLE row
 vars == <<row>>
@@ -54,10 +55,10 @@ Next ==
   /\ \/ row' = MkRow("hash2", Observe(HashLit(<<row.a, row.b>>)))
      \/ \E c \in 1..NK : row' = MkRow("hash3", Observe(HashLit(<<row.a, row.b, c>>)))
      \/ \E c \in 1..NK, d \in 1..NK :
-          /\ (Tier = "thorough" \/ (row.a + 2 * row.b + 3 * c + 5 * d) % 9 = 0)
+          /\ (Tier = "thorough" \/ (row.a + 2 * row.b + 3 * c + 5 * d + Seed - 1) % 9 = 0)
           /\ row' = MkRow("hash4", Observe(HashLit(<<row.a, row.b, c, d>>)))
      \/ \E c \in 1..NK, d \in 1..NK, e \in 1..NK :
-          /\ (row.a + 2 * row.b + 3 * c + 5 * d + 7 * e) % (IF Tier = "thorough" THEN 13 ELSE 211) = 0
+          /\ (row.a + 2 * row.b + 3 * c + 5 * d + 7 * e + Seed - 1) % (IF Tier = "thorough" THEN 13 ELSE 211) = 0
           /\ row' = MkRow("hash5", Observe(HashLit(<<row.a, row.b, c, d, e>>)))
      \/ \E c \in 1..NK :
           LET arg == <<"arr", <<Nested(<<row.a, row.b>>, <<c, row.a>>)>> >>
